@@ -127,8 +127,19 @@ def run(ctx):
                 if aq is not None:
                     with torch.no_grad(), oq.Calibration(streamline=(calib == "streamline")):
                         model(lifecycle.batch(r, shape, wd))
+                # channels_last convolution weights, frozen sources only (a frozen weight is reloaded with the layout of
+                # the checkpoint; a float weight takes the layout of the target, as in any torch model) and not through
+                # safetensors (which refuses every non-contiguous tensor, float ones included)
+                cl = kind in ("conv", "convnet", "conv_big") and frozen and ser != "safetensors" and r.random() < 0.5
+                if cl and r.random() < 0.5:
+                    model = model.to(memory_format=torch.channels_last)  # converted before freezing
                 if frozen:
                     oq.freeze(model)
+                if cl and frozen and not any(getattr(p_, "is_contiguous", lambda **k: True)(memory_format=torch.channels_last)
+                                             for p_ in model.parameters() if p_.ndim == 4):
+                    model = model.to(memory_format=torch.channels_last)  # ... or after
+                if cl:
+                    ctx.count("channels_last_models")
             except Exception as e:
                 ctx.violation(dict(sig0, kind="setup_raises", exc=type(e).__name__), dict(desc=desc, msg=str(e)[:300]))
                 continue
